@@ -18,15 +18,18 @@ PROPS = {
 }
 
 PROPS["C16"] = dict(
-    technique="Coq proof that the uint64 bitmap window (N model with explicit mod 2^64) refines a set-based window, by invariant + induction over delivery sequences; vm_compute correspondence on replayWindow via a hook",
-    level_text="Theorems over every configured size and every delivery sequence (at most once, accept rule, window bounds, refinement of "
-               "the set-based window) proved in Coq on a bit-faithful model of replayWindow.check; the model and an independent "
-               "property-level scan are evaluated in Coq on decision sequences produced by the Go window.",
-    level_note="Trusted: Coq kernel + vm_compute; hand-written model tied by correspondence; authenticity (INT-CTXT of SM4-GCM / "
-               "HMAC-SM3+CBC) is an assumption of the connection-level statements.",
-    code_names={1: "sequence-number-accepted-twice", 2: "in-window-first-arrival-refused"},
-    assumptions=["sequence numbers are < 2^48 (header field width), so the unbounded-N model has no wrap the code lacks"],
-    trusted=["verif hook VerifNewReplayWindow / Check (dtlcp)"],
+    technique="Coq proof that the uint64 bitmap window (N model with explicit mod 2^64) refines a set-based window, by invariant + induction over delivery sequences, lifted to a connection-level model of an established connection (genuine records / anything else) for every history; vm_compute correspondence on replayWindow via a hook and on real established connections fed scripted histories of genuine, replayed, reordered, bit-flipped, truncated, old-epoch and random datagrams through Read and ReadFrom",
+    level_text="Theorems over every configured size and every delivery history of any length: at most once, accept rule, window bounds, refinement of the set-based window (bit-faithful model of "
+               "replayWindow.check); connection level: only the genuine record that arrived is delivered, each payload at most once, whatever is not genuine is inert (removing it changes neither "
+               "the window nor anything delivered), first arrivals inside the window are delivered.  The window model is evaluated in Coq on decision sequences of the Go window; the connection "
+               "model on what the application of a real connection (both cipher modes, window sizes 0/32/48/64/100/160, Read and ReadFrom) got after every arrival of a scripted history.",
+    level_note="Trusted: Coq kernel + vm_compute; hand-written models tied by correspondence; that a datagram which is not byte-identical to a genuine record fails authentication (INT-CTXT of SM4-GCM / "
+               "HMAC-SM3+CBC) is the assumption behind the `Bogus` item of the connection model; the harness classifies what it delivers (genuine copy / anything else). F7 and F14 fixed.",
+    code_names={1: "sequence-number-accepted-twice", 2: "in-window-first-arrival-refused", 3: "delivered-something-that-is-not-the-genuine-record-that-arrived",
+                4: "payload-delivered-twice", 5: "in-window-first-arrival-not-delivered", 6: "connection-failed-on-a-record-that-must-be-discarded"},
+    assumptions=["sequence numbers are < 2^48 (header field width), so the unbounded-N model has no wrap the code lacks",
+                 "record protection is unforgeable: a datagram that differs from every genuine record of the epoch fails authentication"],
+    trusted=["verif hook VerifNewReplayWindow / Check (dtlcp)", "harness/internal/tk/vnet.go (capture of the peer's records, scripted delivery)"],
 )
 
 PROPS["C17"] = dict(
